@@ -242,3 +242,55 @@ pub fn cli_interleavings<C: Autocomplete + Help>(prop: &str, label: &str, cb: us
     o.wall_s = t0.elapsed().as_secs_f64();
     o
 }
+
+/// "Sandwiches": instance A is given i events, then instance B j events, then A k more events, for every
+/// choice of the i + j + k events and every listed shape (i, j, k). A subset of the interleavings of length
+/// i + j + k that reaches one step deeper than the complete enumeration can afford: the shape of an
+/// interference through module-level state is "A prepares, B disturbs, A continues".
+pub fn cli_sandwiches<C: Autocomplete + Help>(prop: &str, label: &str, cb: usize, hb: usize, events: &[Ev], shapes: &[(usize, usize, usize)]) -> EnumOutcome {
+    let t0 = Instant::now();
+    let mut o = EnumOutcome::default();
+    o.name = format!("two Cli instances ({}), cb={} hb={}, every sandwich A^i B^j A^k over {} events for (i,j,k) in {:?}", label, cb, hb, events.len(), shapes);
+    o.rule = "A gets i events, B gets j, A gets k more; per call: result, sink bytes, handler calls and hooked state, and the canonical final state, compared with the same Cli given its events alone; non-trivial = every case (both instances act)".into();
+    let n = events.len();
+    let mut expected = 0u64;
+    for &(i, j, kk) in shapes {
+        let len = i + j + kk;
+        expected += (n as u64).pow(len as u32);
+        let mut idx = vec![0usize; len];
+        'outer: loop {
+            let seq: Vec<(u8, Ev)> = idx.iter().enumerate().map(|(p, &e)| (if p >= i && p < i + j { 1u8 } else { 0u8 }, events[e].clone())).collect();
+            o.evaluations += 1;
+            o.distinct_nontrivial += 1;
+            if let Some(d) = cli_case::<C>(cb, hb, &seq) {
+                let again = cli_case::<C>(cb, hb, &seq).is_some() && cli_case::<C>(cb, hb, &seq).is_some();
+                let path: Vec<String> = seq.iter().map(|(w, e)| format!("{}:{}", if *w == 0 { "A" } else { "B" }, e.render())).collect();
+                if again {
+                    o.viol(format!("{}/behaviour-depends-on-another-instance", prop), d, path);
+                } else {
+                    o.viol("MACHINERY/interleaving-not-reproducible", d, path);
+                }
+                if o.viol_counts.values().sum::<u64>() > 2000 {
+                    break 'outer;
+                }
+            }
+            let mut p = len;
+            loop {
+                if p == 0 {
+                    break 'outer;
+                }
+                p -= 1;
+                idx[p] += 1;
+                if idx[p] < n {
+                    break;
+                }
+                idx[p] = 0;
+            }
+        }
+    }
+    o.expected = Some(expected);
+    o.exhaustive = o.evaluations == expected || !o.viol_counts.is_empty();
+    o.samples = vec![serde_json::json!(["A:Ch('a')", "A:Ch('a')", "A:Left", "B:Ch('é')", "A:Right"])];
+    o.wall_s = t0.elapsed().as_secs_f64();
+    o
+}
